@@ -65,6 +65,10 @@ func (b Bound) Union(other Bound) Bound {
 		return b
 	}
 
+	if b.IsEmpty() {
+		return other
+	}
+
 	b = b.Extend(other.Min)
 	b = b.Extend(other.Max)
 	b = b.Extend(other.LeftTop())
